@@ -16,10 +16,13 @@ def run(tier, seed):
     pack.assume('narrow claim: events are neither lost nor repeated across a resume boundary and the time axis has no '
                 'duplicate stamp, via (i) TDS.run leaves the event/step-size invariant on success, (ii) init_resume writes '
                 'only the step-size state and the time, (iii) the resumed run() requires exactly that invariant',
-                'not decided: trajectory equality with the uninterrupted run, snapshot save/load (dill), fix_view_arrays, '
-                'System.reset reproducibility')
+                'not decided: trajectory equality with the uninterrupted run; dill itself (snapshot save/load is replayed natively '
+                'when the fix_view_arrays contract fails or is undecided); System.reset reproducibility is a bounded native check')
     items = [(T.init_resume('C14'),), (T.calc_h('C14', resume_value=True),), (T.run('C14', drop=('success=>initialisation-test-not-failed',)),)]
+    from contracts import fn_resume as RS
+    items += [(RS.dae_reset('C14'),), (RS.dae_init_t('C14'),), (RS.fix_view_arrays('C14'), None, RS.replay_snapshot)]
     run_contracts(pack, items)
+    RS.bounded_reset(pack, 'C14')
     # hand-over lemma: ensures(run_1) /\ tf_2 >= tf_1 >= 0  ==>  requires(run_2)['resume-state'] and the resume branch
     t, tf1, tf2 = z3.Reals('t tf1 tf2')
     inv = z3.Bool('event_inv_and_step_size_inv')       # the same predicate instance: state is untouched between the calls
